@@ -1,7 +1,7 @@
 (* C12 — equality, ordering and hashing agree with the canonical string (LanguageIdentifier level;
    derived PartialEq/Ord/Hash are modelled structurally: a derived hash is a function of the
    structural value, so equal values hash equally by construction). *)
-From UL Require Import Bytes Subtags LangId Grammar LangIdSpec LangIdProofs LangIdAlgebra.
+From UL Require Import Bytes Subtags LangId Ext Grammar LangIdSpec LocaleInv LangIdProofs LangIdAlgebra RoundTrip.
 
 Theorem C12_eqb_is_eq : forall x y, li_eqb x y = true <-> x = y.
 Proof. exact li_eqb_iff. Qed.
@@ -26,6 +26,16 @@ Proof. intros x y. split; reflexivity. Qed.
 Theorem C12_single_repr : forall x, li_inv x = true -> li_variants x <> Some [].
 Proof. intros [l s r [[|v vs]|]] H; try discriminate. unfold li_inv in H. cbn in H. rewrite !andb_false_r in H. discriminate. Qed.
 
+(* Locale: the printer is injective on the invariant, so equal canonical strings mean equal values
+   (derived == is structural equality) *)
+Theorem C12_locale_string_inj : forall x y, loc_inv x = true -> loc_inv y = true ->
+  loc_to_string x = loc_to_string y -> x = y.
+Proof.
+  intros x y Hx Hy E. pose proof (locale_roundtrip x Hx) as Rx. pose proof (locale_roundtrip y Hy) as Ry.
+  rewrite E in Rx. congruence.
+Qed.
+
+Print Assumptions C12_locale_string_inj.
 Print Assumptions C12_eqb_is_eq.
 Print Assumptions C12_eq_iff_string.
 Print Assumptions C12_cmp_eq.
